@@ -51,6 +51,7 @@ THEOREMS = [
     'C02_sq_positive_g_refuted',
     'C02_convert_any_axis',
     'C02_C_K_any_axis_locus_sense',
+    'C02_inadmissible_cards_raise',
     'C02_number_items_spec',
     'C02_spec_sanity',
 ]
